@@ -276,7 +276,7 @@ def check_nullish_tables(ctx, rule):
     ctx.expect_count(rule, 'null-row test of the stage loop', len(tests), 1)
     env = G.single_assignments(es.node)
     import itertools
-    alphabet = sorted(need) + ['*-', '4c', '=', '*^', '!']
+    alphabet = sorted(need) + ['*-', '4c', '=', '*^', '!', '..', '**', ' ']
     samples = [[]] + [[a] for a in alphabet] + [[a, b] for a in alphabet for b in alphabet]
     for t in tests:
         at = f'{es.module.relpath}:{t.lineno}'
